@@ -167,14 +167,13 @@ func (nd *node) isDir() bool {
 	return nd.mode.IsDir()
 }
 
-// remove deletes the content of a node.
+// remove deletes the directory entries of a node and decrements its reference counter.
+// The data stay available to the files still open on the node, as they do on a POSIX system;
+// they are reclaimed by the garbage collector when the last of them is gone.
 func (nd *node) remove() {
 	nd.children = nil
 
 	nd.nlink--
-	if nd.nlink == 0 {
-		nd.data = nil
-	}
 }
 
 // setMode sets the permissions of the file node.
